@@ -198,12 +198,14 @@ def r5(ctx):
         calls = b.real_calls()
 
         def arm(bi, variant):
+            # exactly `event is <variant>` - no further condition may suppress the call
             g = b.guard(bi)
-            return len(g) == 1 and any(a[0] == "is" and render(a[1]) == "event" and a[2] == frozenset([variant]) for a in next(iter(g)))
+            return len(g) == 1 and len(next(iter(g))) == 1 and \
+                all(a[0] == "is" and render(a[1]) == "event" and a[2] == frozenset([variant]) for a in next(iter(g)))
         up = [(bi, t, tm) for bi, t, tm in calls if mir.short(tm[1]) == "ConnectivityStates::" + upd]
         od = [(bi, t, tm) for bi, t, tm in calls if tm[1].endswith("OnDisconnectStrategy::on_disconnect")]
         ok = len(up) == 1 and len(od) == 1 and arm(up[0][0], "Reconnecting") and arm(od[0][0], "Reconnecting")
-        ctx.check("Engine::" + fn + ":Reconnecting", ok, "the disconnect arm calls the matching updater and on_disconnect exactly once",
+        ctx.check("Engine::" + fn + ":Reconnecting", ok, "every disconnect notice (unconditionally) calls the matching updater and on_disconnect exactly once",
                   got=(len(up), len(od)), key="once")
         if ok:
             n += 1
